@@ -68,12 +68,16 @@ ActStep(c, B, st) ==
     THEN FoldLeft(LAMBDA acc, ls : ActStep1(c, acc, [kw |-> st.kw] @@ ls), B, Lib)
     ELSE ActStep1(c, B, st)
 
+(* event parameters: 0 = none, 7 = (v=7), 8 = (v=7, u=1).  "Only the parameters that are provided are compared":  *)
+(* an assertion with parameters p matches a sent event with parameters q iff p is a sub-record of q.              *)
+ParMatch(p, q) == p = 0 \/ (p = 7 /\ q \in {7, 8}) \/ (p = 8 /\ q = 8)
+
 (* documented meaning of a then step *)
 Truth(c, B, st) ==
   LET tr == B.trace
       anyk(P(_)) == \E k \in DOMAIN tr : P(tr[k])
       sent == FlattenSeq([k \in DOMAIN tr |-> SentOf2(tr[k])])
-      fired(e, p) == \E j \in DOMAIN sent : sent[j].ev = e /\ (p = 0 \/ sent[j].par = p)
+      fired(e, p) == \E j \in DOMAIN sent : sent[j].ev = e /\ ParMatch(p, sent[j].par)
   IN CASE st.kind = "entered"        -> anyk(LAMBDA ms : st.a \in EnteredOf(ms))
        [] st.kind = "not_entered"    -> ~anyk(LAMBDA ms : st.a \in EnteredOf(ms))
        [] st.kind = "exited"         -> anyk(LAMBDA ms : st.a \in ExitedOf(ms))
